@@ -157,10 +157,17 @@ def variants(ast, placement, auto, wrapper):
 def render(auto, env_kw, tsrc, data):
     import jinja2
 
+    def once():
+        env = jinja2.Environment(autoescape=auto, **env_kw)
+        return env.from_string(tsrc).render(**data)
+
     try:
-        with core.alarm(10):
-            env = jinja2.Environment(autoescape=auto, **env_kw)
-            return ("ok", env.from_string(tsrc).render(**data))
+        try:
+            with core.alarm(15):
+                return ("ok", once())
+        except core.CaseTimeout:  # a stalled machine is not a finding: one retry with a long limit
+            with core.alarm(180):
+                return ("ok", once())
     except core.CaseTimeout:
         return ("exc", "CaseTimeout")
     except Exception as e:  # noqa: BLE001
